@@ -8,11 +8,12 @@ import CoxeterVerif.Model.Constructors
   form factors: `Lemmas/CovarianceFF.lean`; the residual guards and `_is_minimal_bounding_ball`, all relative:
   `Lemmas/CovarianceBalls.lean`; polytri's thresholds, all relative: `Lemmas/CovariancePolytri.lean`.)
 
-  * `Polygon.__init__` coplanarity loop `np.isclose(n·v, d, planar_tolerance)`: the third positional argument is
-    `rtol`, `atol` keeps `1e-8`, and the reference `d = n·v₀` is the distance of the PLANE FROM THE ORIGIN — the
-    test `|n·v − d| ≤ 1e-8 + ptol·|d|` is neither scale nor translation covariant.  An exactly planar polygon passes
-    at every scale and position (`coplanar_sim_planar`); a polygon that is off its plane by `δ` passes at scale `k`
-    iff `δ ≤ 1e-8/k + ptol·|d|` (`coplanar_scale_iff`); witnesses `coplanar_scale_fails`, `coplanar_translate_fails`.
+  * `Polygon.__init__` coplanarity test.  BEFORE 744f807 (`C15.coplanar`, kept in C15's model as a regression witness):
+    `np.isclose(n·v, d, planar_tolerance)` — the third positional argument is `rtol`, `atol` keeps `1e-8`, and the
+    reference `d = n·v₀` is the distance of the PLANE FROM THE ORIGIN: `|n·v − d| ≤ 1e-8 + ptol·|d|` is neither scale
+    nor translation covariant (`coplanar_scale_iff`, `coplanar_scale_fails`, `coplanar_translate_fails`; finding of
+    this property, repaired).  NOW (`C15.coplanarRel`, 744f807): `|(v − v₀)·n| ≤ ptol · max_w ‖w − v₀‖` — invariant
+    under every proper similarity, for EVERY vertex list, normal and tolerance (`coplanarRel_sim`).
   * the first-corner normal and the orthogonality test `np.isclose(|c·n'|, 1)` (dimensionless): covariant
     (`cornerNormal_sim`, `chooseNormal_sim`).
   * `Polyhedron.merge_faces(atol=1e-8, rtol=1e-5)`: `np.allclose` on rows `(n, d)` — the normal components are scale
@@ -28,7 +29,7 @@ noncomputable section
 
 namespace C15
 
-/-! ### coplanarity loop of `Polygon.__init__` -/
+/-! ### coplanarity loop of `Polygon.__init__` BEFORE 744f807 (`C15.coplanar`) -/
 
 theorem coplanar_iff' (n : V3 ℝ) (verts : List (V3 ℝ)) (ptol : ℝ) :
     coplanar n verts ptol = true ↔
@@ -135,6 +136,47 @@ theorem coplanar_translate_fails :
       simp only [bentQuad, V3.dot, List.map_cons, List.getD_cons_zero, V3.add_x, V3.add_y, V3.add_z] <;> norm_num
   rw [h1, h2] at this
   exact absurd this (by decide)
+
+/-! ### the repaired test (744f807): invariant under every proper similarity -/
+
+theorem planarExtent_sim {g : Sim} (hg : g.Proper) (verts : List (V3 ℝ)) (hne : verts ≠ []) :
+    planarExtent (verts.map g.pt) = g.k * planarExtent verts := by
+  unfold planarExtent
+  rw [getD_map_pt g verts hne]
+  have h0 : (lit 0 : ℝ) = g.k * lit 0 := by simp [Scalar.lit]
+  have hm : ((verts.map g.pt).map fun v => V3.norm (v - g.pt (verts.getD 0 V3.zero)))
+      = (verts.map fun v => V3.norm (v - verts.getD 0 V3.zero)).map (g.k * ·) := by
+    rw [List.map_map, List.map_map]
+    apply List.map_congr_left
+    intro v _
+    simp only [Function.comp, Sim.dist hg]
+  simp only [] at hm ⊢
+  rw [hm]
+  conv_lhs => rw [h0]
+  exact foldl_smax_mul hg.kpos _ _
+
+/-- **the repaired coplanarity test does not depend on scale, orientation or position**: for EVERY vertex list
+(planar or not), every normal and every tolerance. -/
+theorem coplanarRel_sim {g : Sim} (hg : g.Proper) (n : V3 ℝ) (verts : List (V3 ℝ)) (ptol : ℝ) :
+    coplanarRel (g.dir n) (verts.map g.pt) ptol = coplanarRel n verts ptol := by
+  by_cases hne : verts = []
+  · subst hne; rfl
+  unfold coplanarRel
+  simp only []
+  rw [planarExtent_sim hg verts hne, getD_map_pt g verts hne, List.all_map]
+  apply List.all_congr rfl
+  intro v
+  simp only [Function.comp, Sim.pt_sub, Sim.vec_dot_dir hg, Scalar.abs_real, abs_mul, abs_of_pos hg.kpos]
+  rw [decide_eq_decide]
+  have : ptol * (g.k * planarExtent verts) = g.k * (ptol * planarExtent verts) := by ring
+  rw [this]
+  exact mul_le_mul_iff_right₀ hg.kpos
+
+/-- the bent quadrilateral that the OLD test accepts or rejects depending on scale and position gets ONE answer
+from the repaired test, whatever the placement -/
+example {g : Sim} (hg : g.Proper) :
+    coplanarRel (g.dir ⟨0, 0, 1⟩) (bentQuad.map g.pt) (1 / 100000) = coplanarRel ⟨0, 0, 1⟩ bentQuad (1 / 100000) :=
+  coplanarRel_sim hg _ _ _
 
 /-! ### first-corner normal and the orthogonality test (dimensionless: covariant) -/
 
